@@ -190,7 +190,7 @@ PROPS["C20"] = {
     "rule": "TCP cases = (MTU from 1 to 9000 per address pair, 0-2 hops, payload lengths at k*MTU-1/0/+1 in both directions, write/read patterns); UDP cases = C08 scenarios with MTU from 1 to 9000, "
             "datagram sizes at MTU-1/MTU/MTU+1/2*MTU and the don't-fragment option set, cleared or never touched. Non-trivial = payload flowed from the accepted side as well / a datagram was delivered; "
             "distinct = distinct descriptors.",
-    "jobs": [{"name": "tcp", "engine": "tcp", "args": {"n": T(1000, 40000)}},
+    "jobs": [{"name": "tcp", "engine": "tcp", "args": {"n": T(1000, 20000)}},
              {"name": "udp", "engine": "udp", "args": {"n": T(1500, 60000)}}],
     "require": {"quick": {"cases_with_accepted_side_payload": 900, "tcp_segments_of_exactly_mtu": 100000, "df_oversize_datagrams": 3000,
                           "oversize_datagrams_delivered_whole": 3000},
